@@ -1,4 +1,4 @@
--- GENERATED from /tmp/wt_s2x by checks/ on every run. Do not edit.
+-- GENERATED from /repo by checks/ on every run. Do not edit.
 import TbbVerif.Core.Cint
 namespace TbbVerif.Generated.C06
 open TbbVerif.Cint
@@ -11,8 +11,8 @@ def pretestBegin : Nat := 10
 def medianDivisor : Nat := 8
 def probeStart : Nat := 0
 def probeEnd : Nat := 9
-def probeArg1 : Nat := 0
-def probeArg2 : Nat := 1
+def probeArg1 : Nat := 1
+def probeArg2 : Nat := 0
 def pretestArg1 : Nat := 1
 def pretestArg2 : Nat := 0
 def scanTreatAsStolen (isRight stolen bodyNeLeftSum : Bool) : Bool := (isRight && (stolen || bodyNeLeftSum))
